@@ -68,7 +68,7 @@ Fixpoint node_value (fuel : nat) (s : state) (n : nid) : option val :=
     end
   end.
 Definition value_of (n : nid) : M (option val) :=
-  s <- get ;; ret (node_value (S (length (nodes s))) s n).
+  s <- get ;; ret (node_value (S n) s n).    (* inputs have smaller ranks: S n steps suffice *)
 
 (* has_invalid_child / should_be_invalidated (node.rs:382-433) *)
 Definition should_be_invalidated (s : state) (x : node) : bool :=
@@ -450,14 +450,11 @@ Fixpoint became_necessary (fuel : nat) (n : nid) : M unit :=
     set_height n (sh + 1) ;;;
     s <- get ;;
     x <- get_node n ;;
-    h <- (fix go (cs : list (Z * nid)) (h : Z) : M Z :=
-       match cs with
-       | [] => ret h
-       | (i, c) :: cs' =>
-         add_parent_without_adjusting_heights f c i n ;;;
-         cx <- get_node c ;;
-         go cs' (if bool_decide (h <= n_height cx) then n_height cx + 1 else h)
-       end) (indexed (children_of s x)) (n_height x) ;;
+    h <- foldM (fun h ic =>
+           add_parent_without_adjusting_heights f ic.2 ic.1 n ;;;
+           cx <- get_node ic.2 ;;
+           ret (if bool_decide (h <= n_height cx) then n_height cx + 1 else h))
+         (indexed (children_of s x)) (n_height x) ;;
     set_height n h ;;;
     dassert (x <- get_node n ;; ret (negb (in_rch x))) 201 ;;;
     dassert (x <- get_node n ;; ret (is_necessary x)) 202 ;;;
@@ -537,12 +534,7 @@ Fixpoint invalidate_node (fuel : nat) (n : nid) : M unit :=
          bd <- get_bind b ;;
          let all := b_created bd in
          upd_bind b (fun bd => bd <| b_created := [] |>) ;;;     (* drain(..) *)
-         (fix go (l : list nid) : M unit :=
-            match l with
-            | [] => ret tt
-            | r :: l' => rx <- get_node r ;;
-                         (if n_live rx then invalidate_node f r else ret tt) ;;; go l'
-            end) all
+         forM_ all (fun r => rx <- get_node r ;; if n_live rx then invalidate_node f r else ret tt)
      | _ => ret tt
      end) ;;;
     upd_node n (fun x => x <| n_valid := false |>) ;;;
@@ -801,29 +793,37 @@ Definition maybe_change_value_manual (fuel : nat) (n : nid) (old : option val) (
   maybe_handle_after_stabilisation n ;;;
   x <- get_node n ;;
   let parents := indexed (n_parents x) in
-  let handle (ip : Z * nid) (k : M (option nid)) (first : bool) : M (option nid) :=
+  (* child_changed + the needs_to_be_computed assertion, common to both loops; false = the parent's
+     weak reference was dead (`return None`) *)
+  let visit (ip : Z * nid) (site : Z) : M bool :=
     match zget (n_cix_in_parent x) ip.1 with
     | None => panic (PIndex 320)
     | Some ci =>
       px <- get_node ip.2 ;;
-      if negb (n_live px) then ret None else       (* upgrade failed: `return None` *)
+      if negb (n_live px) then ret false else
       (if run_cc then child_changed fuel ip.2 n ci old else ret tt) ;;;
-      dassert (p <- get_node ip.2 ;; s <- get ;; ret (needs_to_be_computed s p)) (if first then 322 else 321) ;;;
-      p <- get_node ip.2 ;;
-      if first then
-        (if in_rch p then ret None
-         else ok <- parent_iter_can_recompute_now ip.2 n ;; ret (if ok : bool then Some ip.2 else None))
-      else
-        (if in_rch p then ret tt else rch_insert ip.2) ;;; k
+      dassert (p <- get_node ip.2 ;; s <- get ;; ret (needs_to_be_computed s p)) site ;;;
+      ret true
     end in
   match parents with
   | [] => ret None
   | first :: rest =>
-    (fix go (l : list (Z * nid)) : M (option nid) :=
-       match l with
-       | [] => handle first (ret None) true
-       | ip :: l' => handle ip (go l') false
-       end) rest
+    (* all parents but the first: queue them *)
+    continue <- forM_break rest (fun ip =>
+      ok <- visit ip 321 ;;
+      if ok : bool then
+        p <- get_node ip.2 ;;
+        (if in_rch p then ret tt else rch_insert ip.2) ;;; ret true
+      else ret false) ;;
+    if continue : bool then
+      (* the first parent may be recomputed directly *)
+      ok <- visit first 322 ;;
+      if ok : bool then
+        p <- get_node first.2 ;;
+        if in_rch p then ret None
+        else ok <- parent_iter_can_recompute_now first.2 n ;; ret (if ok : bool then Some first.2 else None)
+      else ret None
+    else ret None
   end.
 
 (* maybe_change_value (node.rs:1662) *)
@@ -930,10 +930,7 @@ Definition resolve (locals : list nid) (o : operand) : M nid :=
 (* run one template: the body of a bind closure.  [lhsv] is the left-hand value. *)
 Definition instantiate (lhsv : val) (body : list tinstr) (r : operand) : M nid :=
   let cap := as_int lhsv in
-  locals <- (fix go (body : list tinstr) (locals : list nid) : M (list nid) :=
-    match body with
-    | [] => ret locals
-    | t :: body' =>
+  locals <- foldM (fun locals t =>
       n <- match t with
            | TConst v => create_node (KConst (VInt v))
            | TConstLhs => create_node (KConst lhsv)
@@ -951,8 +948,8 @@ Definition instantiate (lhsv : val) (body : list tinstr) (r : operand) : M nid :
            | TExport o => n <- resolve locals o ;; modify (fun s => s <| exports := exports s ++ [n] |>) ;;; ret n
            | TBind lhs f => l <- resolve locals lhs ;; create_bind l (subst_bindfn 0 locals f)
            end ;;
-      go body' (match t with TCutoff _ _ | TExport _ => locals | _ => locals ++ [n] end)
-    end) body [] ;;
+      ret (match t with TCutoff _ _ | TExport _ => locals | _ => locals ++ [n] end))
+    body [] ;;
   resolve locals r.
 
 (* ------------------------------------------------------------ recompute (node.rs:590-779) *)
@@ -1005,16 +1002,12 @@ Definition recompute_one (fuel : nat) (n : nid) : M (option nid) :=
       upd_node n (fun x => x <| n_value := Some new |>) ;;;
       maybe_change_value_manual fuel n None did_change true
   | Some (KFold f init cs) =>
-      acc <- (fix go (cs : list nid) (acc : val) : M val :=
-                match cs with
-                | [] => ret acc
-                | c :: cs' =>
+      acc <- foldM (fun acc c =>
                   v <- unwrap_value c 342 ;;
                   user_call ;;;
                   let r := fold_sem (c_fid f) (c_cap f) acc v in
                   emit (EvFoldCall n acc v r) ;;;
-                  go cs' r
-                end) cs init ;;
+                  ret r) cs init ;;
       maybe_change_value fuel n acc
   | Some (KBindLhs b) =>
       bd <- get_bind b ;;
